@@ -118,6 +118,83 @@ theorem exists_truncated :
     ∧ get (crashAfter [("lib/a.md", "old text")] (writeStore false "lib" [("a", ["new ", "text"])]) 2) "lib/a.md" = some "new " := by
   decide
 
+/-- **an error return is as safe as a crash**: when a system call of `write_file` fails (disk full, quota,
+I/O error) the error branch runs; afterwards the note still holds its complete old text — the failing call
+being the open of the temporary file, any of its writes, or the rename -/
+theorem failed_write_keeps_note (base key : String) (chunks : List String) (d : Disk) (k : Nat)
+    (hne : tmpPath base key ≠ notePath base key) (hk : k ≤ chunks.length + 1) :
+    get (run d (writeFileFailing base key chunks k)) (notePath base key) = get d (notePath base key) := by
+  unfold writeFileFailing
+  by_cases hk' : k ≤ chunks.length
+  · simp only [if_pos hk']
+    rw [run_append, run_cons, run_nil]
+    simp only [apply]
+    rw [get_del, if_neg (fun e => hne e.symm)]
+    exact get_take_writeFile_note_old base key chunks d k hne hk
+  · simp only [if_neg hk']
+    exact get_take_writeFile_note_old base key chunks d k hne hk
+
+/-- … and a failed write leaves no temporary file behind (a failed rename does: `k = chunks.length + 1`) -/
+theorem failed_write_removes_temp (base key : String) (chunks : List String) (d : Disk) (k : Nat)
+    (hk : k ≤ chunks.length) :
+    get (run d (writeFileFailing base key chunks k)) (tmpPath base key) = none := by
+  unfold writeFileFailing
+  simp only [if_pos hk]
+  rw [run_append, run_cons, run_nil]
+  simp only [apply]
+  rw [get_del, if_pos rfl]
+
+/-- the whole store with a failing note: every note is old or new, complete -/
+theorem failed_store_old_or_new (base : String) (d : Disk) (store : List (String × List String)) (i k : Nat)
+    (hgood : GoodStore base store) (key : String) (chunks : List String) (hmem : (key, chunks) ∈ store) :
+    get (run d (writeStoreFailing base store i k)) (notePath base key) = get d (notePath base key)
+    ∨ get (run d (writeStoreFailing base store i k)) (notePath base key) = some (String.join chunks) := by
+  induction store generalizing d i with
+  | nil => cases hmem
+  | cons e rest ih =>
+    obtain ⟨k0, ch0⟩ := e
+    cases i with
+    | zero =>
+      simp only [writeStoreFailing]
+      rcases List.mem_cons.1 hmem with heq | hin
+      · obtain ⟨rfl, rfl⟩ := Prod.mk.inj heq
+        by_cases hk : k ≤ chunks.length + 1
+        · exact Or.inl (failed_write_keeps_note base key chunks d k hgood.head_ne hk)
+        · right
+          rw [writeFileFailing_of_length_lt base key chunks k (by omega)]
+          exact get_run_writeFile_note base key chunks d
+      · have hf := (hgood.tail_frame hin).1
+        exact Or.inl (get_run_writeFileFailing_frame base k0 ch0 d k _ hf.1 hf.2)
+    | succ i =>
+      simp only [writeStoreFailing, run_append]
+      rcases List.mem_cons.1 hmem with heq | hin
+      · obtain ⟨rfl, rfl⟩ := Prod.mk.inj heq
+        right
+        have hfr : get (run (run d (writeFile true base key chunks)) (writeStoreFailing base rest i k))
+            (notePath base key) = get (run d (writeFile true base key chunks)) (notePath base key) :=
+          get_run_writeStoreFailing_frame base rest i k _ _ (fun e he => (hgood.head_frame e he).1)
+        rw [hfr]
+        exact get_run_writeFile_note base key chunks d
+      · have hf := (hgood.tail_frame hin).1
+        have h := ih (run d (writeFile true base k0 ch0)) i hgood.tail hin
+        rw [get_run_writeFile_frame true base k0 ch0 d _ hf.1 hf.2] at h
+        exact h
+
+/-- what the error branch must *not* do (seeded change C19: fall back to writing the note in place when the
+temporary file cannot be written): with the disk still full the in-place write truncates the note -/
+theorem fallback_in_place_truncates :
+    get (run [("lib/a.md", "old text")]
+      ([Step.openTrunc "lib/a.md.tmp", Step.unlink "lib/a.md.tmp"] ++ [Step.openTrunc "lib/a.md"])) "lib/a.md" = some "" := by
+  decide
+
+/-- non-vacuity for the error branch: each of the 4 failure points of a two-chunk write keeps the old text,
+the 5th (`k` past the end) is the complete write -/
+example :
+    (List.range 4).all (fun k =>
+      get (run [("lib/a.md", "old text")] (writeFileFailing "lib" "a" ["new ", "text"] k)) "lib/a.md" == some "old text") = true
+    ∧ get (run [("lib/a.md", "old text")] (writeFileFailing "lib" "a" ["new ", "text"] 4)) "lib/a.md" = some "new text" := by
+  decide
+
 /-- non-vacuity for the repaired code: at every one of the 5 crash points of a two-chunk write the
 note is old or new -/
 example :
